@@ -57,7 +57,7 @@ def toy_interleavings(k, cap=300):
     dfs.add(one(s))
     runs += 1
     for i in range(len(script), len(s.decisions)):
-      c, nopt = s.decisions[i]
+      c, nopt = s.decisions[i][:2]
       for alt in range(c + 1, nopt):
         stack.append([d[0] for d in s.decisions[:i]] + [alt])
   for lg in seen | dfs:
